@@ -223,7 +223,12 @@ def validate_traces(mod, constdefs, cfg_constants, traces, procs=16, timeout=360
             w.write(name + '.tla', text)
             cfg = 'SPECIFICATION TSpec\nCHECK_DEADLOCK FALSE\nCONSTANTS\n' + '\n'.join('  ' + c for c in cfg_constants) + '\n'
             w.write(name + '.cfg', cfg)
-            r = run_tlc(w.path, name + '.tla', name + '.cfg', workers=1, timeout=timeout)
+            try:
+                r = run_tlc(w.path, name + '.tla', name + '.cfg', workers=1, timeout=timeout)
+            except MachineryError:
+                if os.environ.get('VERIF_DEBUG'):
+                    shutil.copy(f, '/tmp/verif-failed-chunk.json')
+                raise
             verdicts = {}
             for t_ in part:
                 verdicts[t_['id']] = dict(code=None, l=0, clause='', stepfail=[], stepooc=[])
@@ -238,6 +243,8 @@ def validate_traces(mod, constdefs, cfg_constants, traces, procs=16, timeout=360
                 else:
                     verdicts[tid_] = dict(code=code, l=l_, clause=clause, stepfail=[], stepooc=[])
             missing = [t_['id'] for t_ in part if verdicts.get(t_['id'], {}).get('code') is None]
+            if missing and os.environ.get('VERIF_DEBUG'):
+                shutil.copy(f, '/tmp/verif-failed-chunk.json')
             if missing:
                 raise MachineryError('no verdict for traces %s\n%s' % (missing[:5], r.out[-6000:]))
             return verdicts
